@@ -58,7 +58,7 @@ def cli_cell(item):
     env = subprocess_env()
     env.pop('GEOPHIRES_X_VERIF', None)
     env['TMPDIR'] = str(root / 'inp')
-    p = subprocess.run(args, cwd=str(root / cell['dir']), env=env, capture_output=True, text=True, timeout=900)
+    p = subprocess.run(args, cwd=str(root / cell['dir']), env=env, capture_output=True, text=True, timeout=2400)
     created = sorted(listing(root) - before)
     # rich / HTML side outputs are not part of the property: keep report and JSON candidates only
     created = [list(c) for c in created if c[-1].endswith(('.out', '.json'))]
@@ -226,7 +226,7 @@ def judge(res: Result, direct: dict, recs: list, mc_recs: list, texts: dict, fai
 
 def run(tier: str) -> int:
     res = Result('C20', tier)
-    r = tlc.run_tlc('Entry', 'MC_Entry.cfg', workers=1, coverage=True, timeout=300)
+    r = tlc.run_tlc('Entry', 'MC_Entry.cfg', workers=1, coverage=True, timeout=2400)
     tlc.check_mc(r, 'MC_Entry.cfg', ['RunOk', 'RunFail', 'Emit'])
     if r['violated']:
         raise MachineryFailure(f'Entry.tla violates {r["violated"]}')
